@@ -7,7 +7,7 @@ from abc import ABC, abstractmethod
 from typing import TYPE_CHECKING
 
 # Third Party Imports
-from numpy import array, cos, sin, zeros_like
+from numpy import array, cos, sin, sort, zeros_like
 from scipy.linalg import norm
 
 # Local Imports
@@ -405,7 +405,8 @@ class Sensor(ABC):
         """
         if el_mask.shape in ((2,), (2, 1)):
             if all(el_mask >= -const.PI / 2) and all(el_mask <= const.PI / 2):
-                self._el_mask = el_mask.reshape(2)
+                # The elevation range is documented as order independent: store it as (min, max)
+                self._el_mask = sort(el_mask.reshape(2))
             else:
                 raise ValueError(f"Sensor: Invalid value [-π/2, π/2] for el_mask: {el_mask}")
         else:
